@@ -10,7 +10,7 @@ import (
 type world struct{}
 
 func (world) Name() string    { return "chain" }
-func (world) Props() []string { return []string{"C15", "C16", "C17", "C36", "C26"} }
+func (world) Props() []string { return []string{"C15", "C16", "C17", "C36", "C26", "C23"} }
 func (world) Bubble(p string) bool {
 	switch p {
 	case "C15", "C16", "C26":
@@ -34,6 +34,8 @@ func (world) Run(k *kernel.K) {
 		runCrash(k)
 	case "C26":
 		runEpoch(k)
+	case "C23":
+		runAuthSet(k)
 	}
 }
 func (world) Rule(p string) string {
@@ -42,6 +44,8 @@ func (world) Rule(p string) string {
 		return "one run = 1-3 real blocktree.BlockTree instances fed the same generated blocks (depth<=12, siblings, primary/secondary marks, tied arrival instants) through per-node inboxes whose delivery order, duplication and interleaving with finalisations are tape-chosen; after every event the touched node is compared with a reference tree built from parent links (block set, leaves, best block, pruned set, ancestry/LCA/range/by-number queries on sampled and finally all pairs). A run is non-trivial if it finalised at least once with >=2 blocks in the tree or delivered out of order/duplicated; distinct = distinct event-kind sequence fingerprint."
 	case "C17":
 		return "one run = a real dot/state BlockState+StorageState over simdisk inside a synctest bubble; blocks with real state tries are imported in tape-chosen order, finalisation requests target descendants, the head again, stale ancestors, pruned siblings and unknown hashes; restarts reload from the simulated disk. After every request: accepted => known descendant; rejected => head/tree/unfinalised/tries unchanged; every finalised-chain block resolvable by number from the DB; no abandoned block retrievable as unfinalised, no abandoned state trie cached. Non-trivial = at least one accepted finalisation that abandoned >=1 block or one restart."
+	case "C23":
+		return "one run = a real dot/state GrandpaState+BlockState with the real dot/digest BlockImportHandler over the simulated disk; a generated block tree with forks carries real GRANDPA consensus digests (scheduled changes with delay 0-3, forced changes with delay 0-2, one pending scheduled change per branch at a time, at most one pending forced change per fork); blocks are imported in order (HandleDigests then ApplyForcedChanges, as dot/core does), finalisations target any live block but never jump over the effective block of a pending scheduled change (the cap an honest voter respects), and the finalisation handler's ApplyScheduledChanges step is delivered immediately or after later imports. After every step current set id, the authority list of every set and (when no forced change happened) the set id of every block number are compared with a reference Substrate authority-set model. Non-trivial = at least one change applied."
 	case "C26":
 		return "one run = a real dot/state EpochState+BlockState (+ the real dot/digest BlockImportHandler) over the simulated disk; generated blocks on competing forks with tape-chosen slot gaps (epoch length 10, skipped epochs included) announce next-epoch data and configuration in the first block of an epoch on their chain (sometimes not at all); blocks are imported, finalised (followed by the persistence steps of the digest handler), the node is crashed and restarted (unfinalised blocks re-imported); for live blocks the epoch data and configuration of their epoch and the next one are looked up under a 40 s wall-clock watchdog and compared with what walking that block's own ancestry finds (latest earlier configuration, genesis as fallback). A lookup that does not return is a violation. Non-trivial = at least one finalisation or restart."
 	case "C36":
@@ -57,6 +61,9 @@ func (world) Components(p string) ([]string, []string) {
 	case "C17":
 		return []string{"dot/state BlockState (AddBlock, SetFinalisedHash, handleFinalisedBlock, NewBlockState reload)", "dot/state InmemoryStorageState+Tries", "lib/blocktree", "pkg/trie/inmemory", "lib/runtime/storage.TrieState"},
 			[]string{"disk (simdisk)", "clock (synctest bubble)", "telemetry", "runtime (state changes drawn from the tape)", "network"}
+	case "C23":
+		return []string{"dot/state GrandpaState (HandleGRANDPADigest, changeTree / orderedPendingChanges, ApplyScheduledChanges, ApplyForcedChanges, GetSetIDByBlockNumber)", "dot/digest BlockImportHandler.HandleDigests", "dot/state BlockState", "dot/types GRANDPA consensus digests"},
+			[]string{"disk (simdisk)", "dot/core import sequence and the asynchronous finalisation handler (their calls are issued by the harness in the same order, the finalisation step optionally delayed)", "GRANDPA voting (finalisation targets are tape-chosen under the honest cap)", "clock (synctest bubble)"}
 	case "C26":
 		return []string{"dot/state EpochState (HandleBABEDigest, GetEpochForBlock, GetEpochDataRaw, GetConfigData, findAncestor, FinalizeBABENextEpochData/ConfigData, restoreMapFromDisk)", "dot/state BlockState", "dot/digest BlockImportHandler.HandleDigests", "dot/types BABE consensus digests"},
 			[]string{"disk (simdisk)", "block production (tape-chosen slots and announcements)", "the asynchronous finalisation handler (its two persistence calls are issued right after SetFinalisedHash)", "telemetry"}
